@@ -17,7 +17,7 @@ import (
 const rule = "case = a YAML stream of 1-4 documents printed by the harness's own emitter from a generated ground-truth tree (block/flow nesting, all five scalar styles, look-alike strings, unicode/escapes/multi-line text, head/line/trailing comments, anchors+aliases, explicit and custom tags, documents with and without `---`, leading comment block). " +
 	"soundness gate: yaml.v2 and goccy/go-yaml must both read the generated text as the ground-truth data. " +
 	"oracle: (a) `yq .` output read by the same two independent readers equals the ground truth (document count, structure, resolved types, key order); (b) comments (multiset), per-node scalar style class, collection flow/block style, anchors, alias targets and explicit tags read from the output's node tree equal the ground truth; (c) `yq .` of the output is byte-identical to the output. " +
-	"non-trivial = the stream has >= 2 of {comment, non-plain scalar, flow collection, anchor/alias, custom tag, > 1 document}; distinct by text"
+	"non-trivial = the stream has >= 2 of {comment, non-plain scalar, flow collection, anchor/alias, custom tag, > 1 document}; distinct by text Sub header_only: a stream that holds only comment lines (short last lines of 1-3 bytes, blank lines and `---` between blocks, with or without a final line end) is printed as it is; in sub identity no empty comment line may appear that the input does not have."
 
 func TestMain(m *testing.M) {
 	hx.Main(m, "C05", rule,
